@@ -176,7 +176,14 @@ def _as_ref(v):
 
 def m_generic_eq(it, a, ty, callee):
     m = re.match(r'^<(.*) as std::cmp::PartialEq(?:<.*>)?>::(eq|ne)$', callee, re.S)
-    r = typed_eq(it, m.group(1), deref(it, a[0]), deref(it, a[1]))
+    x, y = deref(it, a[0]), deref(it, a[1])
+    if re.match(r'^(?:std::vec::Vec<|\[)', m.group(1)):
+        # `Vec<T> == &[T]` and friends: the right-hand side may be a reference to a slice reference
+        while isinstance(x, Ptr):
+            x = it.load(x)
+        while isinstance(y, Ptr):
+            y = it.load(y)
+    r = typed_eq(it, m.group(1), x, y)
     return r if m.group(2) == 'eq' else b_not(r)
 
 
@@ -895,6 +902,7 @@ def install(it):
     A(r'std::vec::Vec::<.*>::(new|with_capacity)', m_new_seq)
     A(r'std::collections::VecDeque::<.*>::(new|with_capacity)', m_new_seq)
     A(r'std::collections::(HashMap|HashSet|BTreeMap|BTreeSet|VecDeque)::<.*>::len', m_len)
+    A(r'std::vec::Vec::<.*>::(reserve|reserve_exact|shrink_to_fit)', m_unit)
     A(r'std::vec::Vec::<.*>::len', m_len)
     A(r'indexmap::IndexMap::<.*>::len', m_len)
     A(r'indexmap::IndexMap::<.*>::is_empty', m_is_empty)
